@@ -13,9 +13,15 @@ INT_BITS = {"u8": 8, "u16": 16, "u32": 32, "u64": 64, "u128": 128, "usize": 64,
             "i8": 8, "i16": 16, "i32": 32, "i64": 64, "i128": 128, "isize": 64}
 
 
-def ty_range(ty, usize_bits=64):
+def set_usize_bits(bits):
+    """pointer width of the configuration being analysed (framework.run_rule sets it from extract.CONFIGS[cfg]["ptr"])"""
+    INT_BITS["usize"] = bits
+    INT_BITS["isize"] = bits
+
+
+def ty_range(ty, usize_bits=None):
     if ty in ("usize", "isize"):
-        bits = usize_bits
+        bits = usize_bits or INT_BITS["usize"]
     else:
         bits = INT_BITS.get(ty)
     if bits is None:
